@@ -416,6 +416,81 @@ func closedDuringChain(name, how string, laterRejects bool, bound int) *vx.Scena
 	return sc
 }
 
+// ---------------------------------------------------------------- concurrent set-up of one namespace
+//
+// Two goroutines of the application set a namespace up at the same time: one installs the middleware
+// (srv.Of(ns).Use(mw)), the other the connection handler (srv.Of(ns).OnConnection(h)); a third variant lets a
+// client's CONNECT create the namespace (AcceptAnyNamespace) while the middleware is being installed. Of(name)
+// must hand every caller the same namespace: a middleware registered before a client connects gates it.
+func concurrentNamespaceSetup(name string, how string, bound int) *vx.Scenario {
+	sc := &vx.Scenario{Name: name, PreemptOnly: true, Bound: bound, Horizon: 30 * time.Second}
+	if bound < 0 {
+		sc.Unbounded = true
+	}
+	sc.Body = func(e *vsched.Exec) func() vx.Result {
+		cfg := &sio.ServerConfig{}
+		if how == "client-creates" {
+			cfg.AcceptAnyNamespace = true
+		}
+		srv := sio.NewServer(cfg)
+		var v vsched.Var
+		mwRuns, connRuns := 0, 0
+		var nspA, nspB *sio.Namespace
+		doneA, doneB := false, false
+		var early *vrig.FakeEIO
+		vsched.GoQuiet("installs-middleware", func() {
+			n := srv.Of("/admin")
+			n.Use(func(s sio.ServerSocket, h *sio.Handshake) any {
+				v.Do(func() { mwRuns++ })
+				return errors.New("nobody gets in")
+			})
+			v.Do(func() { nspA, doneA = n, true })
+		})
+		switch how {
+		case "two-goroutines":
+			vsched.GoQuiet("installs-connection-handler", func() {
+				n := srv.Of("/admin")
+				n.OnConnection(func(s sio.ServerSocket) { v.Do(func() { connRuns++ }) })
+				v.Do(func() { nspB, doneB = n, true })
+			})
+		case "client-creates":
+			// a client that connects while the namespace is being set up may or may not meet the middleware (it
+			// raced the installation); it only makes the server create the namespace from another goroutine
+			vsched.GoQuiet("early-client", func() {
+				early = vrig.NewFakeEIO(srv, "early")
+				early.In("0/admin,")
+				v.Do(func() { doneB = true })
+			})
+		}
+		vsched.Await(func() bool { return doneA && doneB })
+		vsched.SetExploring(false) // the race is over; what follows runs on the default schedule
+		vrig.Settle(time.Second)
+		runsBefore := 0
+		v.Do(func() { runsBefore = mwRuns })
+		// the set-up is over: from here on everybody must meet the middleware
+		late := vrig.NewFakeEIO(srv, "late")
+		late.In("0/admin,")
+		vrig.Settle(time.Second)
+		return func() vx.Result {
+			var r vx.Result
+			now := srv.Of("/admin")
+			listed := len(now.Sockets())
+			admitted, rejected := late.HasPrefix("0/admin,{"), late.HasPrefix("4/admin,")
+			r.Outcome = fmt.Sprintf("same=%v/%v mw=%d conn=%d listed=%d admitted=%v rejected=%v", nspA == now, nspB == nil || nspB == now, mwRuns-runsBefore, connRuns, listed, admitted, rejected)
+			ctx := fmt.Sprintf("%s: Of(\"/admin\") gave %p to the goroutine that installed the middleware, %p to the other one and %p afterwards; for the client that connected after the set-up the middleware ran %d time(s); frames to it %v; %d socket(s) listed, connection handler ran %d time(s)",
+				how, nspA, nspB, now, mwRuns-runsBefore, late.Texts(), listed, connRuns)
+			if nspA != now || (nspB != nil && nspB != now) {
+				r.Violate("concurrent set-up: Of(name) handed out two different namespaces for one name (handlers or middlewares installed on one of them are lost)", "%s", ctx)
+			}
+			if admitted || !rejected || mwRuns-runsBefore != 1 {
+				r.Violate("concurrent set-up: a client that connected after the middleware was installed did not have to pass it", "%s", ctx)
+			}
+			return r
+		}
+	}
+	return sc
+}
+
 // ---------------------------------------------------------------- event middleware
 
 type evCase struct {
@@ -712,6 +787,9 @@ func scenarios(tier string) []*vx.Scenario {
 	for _, x := range s {
 		x.Shards = 4
 	}
+	s = append(s,
+		concurrentNamespaceSetup("concurrent-namespace-setup/two-goroutines", "two-goroutines", b),
+		concurrentNamespaceSetup("concurrent-namespace-setup/client-creates-the-namespace", "client-creates", b))
 	return s
 }
 
@@ -720,7 +798,7 @@ func main() {
 		Property: "C12",
 		Level:    "model_checking",
 		Rule: "admission: every chain of <= 3 middlewares over {accept, join+accept, reject(error), reject(string), reject(struct), join+reject} plus chains of 4-5 with one rejection at each position, on '/' and '/custom' (chains <= 3 also on a server with connection state recovery whose client presents no pid, an unknown pid, a pid without offset), each run on the real server under the scheduler (default schedule, virtual time) and judged against the statement; " +
-			"concurrent connects of 2-3 clients with a blocking middleware explored to the deviation bound; the connection ending (transport close / connect timeout) while an early middleware still runs and a later one rejects or accepts; event middleware: chains of <= 2 x 6 handler signatures, and chains of <= 2 over {accept, reject, reject-iff-first-argument-is-bad} x 7 sets of 1-3 On/Once handlers on the same event x 7 sequences of 1-3 accepted/rejected occurrences (also of an unrelated event). distinct_nontrivial = chains containing >= 1 middleware (admission) + event cases with a non-empty chain + deviating schedules",
+			"concurrent connects of 2-3 clients with a blocking middleware explored to the deviation bound; the connection ending (transport close / connect timeout) while an early middleware still runs and a later one rejects or accepts; two goroutines (or a goroutine and a client's CONNECT under AcceptAnyNamespace) setting one namespace up at once: Of(name) is one namespace and its middleware gates the next client; event middleware: chains of <= 2 x 6 handler signatures, and chains of <= 2 over {accept, reject, reject-iff-first-argument-is-bad} x 7 sets of 1-3 On/Once handlers on the same event x 7 sequences of 1-3 accepted/rejected occurrences (also of an unrelated event). distinct_nontrivial = chains containing >= 1 middleware (admission) + event cases with a non-empty chain + deviating schedules",
 		Scenarios: scenarios,
 		Budget: func(tier string) time.Duration {
 			if tier == "thorough" {
